@@ -77,6 +77,16 @@ var c12classes = []c12class{
 	{"float-div-slice", `{{ 1.5 / zq_xs }}`, true, false},
 	{"int-mod-nil", `{{ zq_i % nil }}`, true, false},
 	{"compare-int-with-struct", `{{ zq_i >= zq_st }}`, true, false},
+	{"uint-plus-string", `{{ zq_u + zq_s }}`, true, false},
+	{"uint-minus-string", `{{ zq_u - zq_s }}`, true, false},
+	{"uint-mul-string", `{{ zq_u8 * zq_s }}`, true, false},
+	{"uint-div-string", `{{ zq_u / "abc" }}`, true, false},
+	{"uint-mod-string", `{{ zq_u % zq_s }}`, true, false},
+	{"uint-less-string", `{{ zq_u < zq_s }}`, true, false},
+	{"uint-greater-equal-string", `{{ zq_u8 >= "x1" }}`, true, false},
+	{"float-minus-string", `{{ zq_f - zq_s }}`, true, false},
+	{"float-less-string", `{{ zq_f <= zq_s }}`, true, false},
+	{"int-less-string", `{{ zq_i > "seven" }}`, true, false},
 	{"call-non-func-paren", `{{ zq_i() }}`, true, false},
 	{"call-non-func-colon", `{{ zq_i: 1 }}`, true, false},
 	{"call-non-func-pipe", `{{ 1 | zq_i }}`, true, false},
@@ -107,6 +117,9 @@ var c12classes = []c12class{
 	{"func-panics-with-error", `{{ zq_fail() }}`, false, false},
 	{"func-panics-with-error-piped", `{{ 1 | zq_fail1 }}`, false, false},
 	{"jetfunc-panicf", `{{ zq_jf(1) }}`, false, false},
+	// an error value that wraps a Go runtime error somewhere in its chain is still an error the function reports
+	{"func-reports-error-wrapping-runtime-error", `{{ zq_failwrap() }}`, false, false},
+	{"jetfunc-panicf-wrapping-runtime-error", `{{ zq_jfwrap(1) }}`, false, false},
 	{"ints-bad-range", `{{range ints(3, 1)}}x{{end}}`, false, false},
 	{"map-odd-args", `{{ map("a") }}`, false, false},
 	{"len-of-int", `{{ len(zq_i) }}`, false, false},
@@ -116,6 +129,15 @@ var c12classes = []c12class{
 	{"isset-wrong-arg-count", `{{ isset() }}`, true, true},
 	{"slot-without-pipe-jetfunc", `{{ zq_jf(_) }}`, true, true},
 	{"includeIfExists-wrong-arg-count", `{{ includeIfExists() }}`, true, true},
+}
+
+// c12runtimeError returns a genuine runtime.Error value (index out of range), recovered.
+func c12runtimeError() (err error) {
+	defer func() { err, _ = recover().(error) }()
+	var xs []int
+	i := 3
+	_ = xs[i]
+	return nil
 }
 
 func c12extra() map[string]interface{} {
@@ -130,8 +152,14 @@ func c12extra() map[string]interface{} {
 		"zq_stringer": func(s fmt.Stringer) string { return s.String() },
 		"zq_join":     func(sep string, parts ...string) string { return strings.Join(parts, sep) },
 		"zq_cat":      func(parts ...string) string { return strings.Join(parts, "") },
-		"zq_fail":     func() string { panic(errors.New("zq_fail reports an error")) },
-		"zq_fail1":    func(int) string { panic(fmt.Errorf("zq_fail1 reports an error")) },
+		"zq_u":        uint(5), "zq_u8": uint8(9), "zq_f": 2.5,
+		"zq_failwrap": func() string { panic(fmt.Errorf("zq_failwrap: lookup failed: %w", c12runtimeError())) },
+		"zq_jfwrap": jet.Func(func(a jet.Arguments) reflect.Value {
+			a.Panicf("zq_jfwrap: %w", c12runtimeError())
+			return reflect.Value{}
+		}),
+		"zq_fail":  func() string { panic(errors.New("zq_fail reports an error")) },
+		"zq_fail1": func(int) string { panic(fmt.Errorf("zq_fail1 reports an error")) },
 		"zq_jf": jet.Func(func(a jet.Arguments) reflect.Value {
 			a.Get(0)
 			a.Panicf("zq_jf reports an error")
